@@ -78,6 +78,7 @@ func judge(r *run, res *simrt.Result) {
 	r.checkSessions(m)
 	r.checkConnect(m)
 	r.checkKeepAlive(m)
+	r.checkSenderIDs(m)
 	r.relabel()
 }
 
@@ -181,6 +182,8 @@ func propOfRequest(t byte) string {
 		return "C07"
 	case refmqtt.PINGREQ:
 		return "C19"
+	case refmqtt.PUBREC:
+		return "C12"
 	}
 	return "C02"
 }
@@ -209,7 +212,7 @@ func (r *run) checkResponses(m *Model) {
 			r.viol(prop, "response-stream", prop+"/response-mismatch/"+refmqtt.TypeName(firstUnanswered(m.Reqs[c])), "connection %d: %s", c.Idx, mm)
 			continue
 		}
-		closedByBroker := c.Dead && !c.ClientEnded
+		closedByBroker, _, _ := brokerClosed(c)
 		// the broker can only answer what it was able to read: if the client
 		// ended the connection, requests written shortly before may be lost
 		for _, rq := range m.Reqs[c] {
@@ -376,6 +379,9 @@ func (r *run) checkRouting(m *Model) {
 			d := delivBy[k][0]
 			r.cur = d.C
 			if d.Src >= srcWill && d.Src < srcInproc {
+				if m.ExemptWills[k] {
+					continue
+				}
 				cause := "?"
 				for _, c := range m.H.Conns {
 					if len(c.Up) > 0 && c.Up[0].P.Type == refmqtt.CONNECT && c.Up[0].P.WillFlag {
@@ -657,6 +663,41 @@ func hasKey[K comparable, V any](m map[K]V, k K) bool { _, ok := m[k]; return ok
 
 func (r *run) checkTeardown(m *Model) {
 	h := m.H
+	// at every valid quiescence point (no stalled reader, nothing unread) the
+	// goroutines of every connection that has ended are gone: what remains is
+	// one processor, receiver and sender per connection that is still open
+	for _, q := range h.QTasks {
+		open, pending := 0, 0
+		for _, c := range h.Conns {
+			if c.OpenStamp > q.Stamp {
+				continue
+			}
+			bc, bcStamp, _ := brokerClosed(c)
+			ended := (c.ClientEnded && c.EndStamp < q.Stamp) || (bc && bcStamp < q.Stamp)
+			if ended {
+				continue
+			}
+			if accepted(c) && c.Down[0].Last < q.Stamp {
+				open++
+			} else {
+				pending++
+			}
+		}
+		counts := map[string]int{}
+		for _, t := range q.Tasks {
+			counts[siteOf(t.Name)]++
+		}
+		for _, role := range []string{"processor", "receiver", "sender"} {
+			if counts[role] > open {
+				r.viol("C16", "goroutines-exit", "C16/leftover-at-quiescence/"+role, "at the quiescence point with stamp %d (%.3fs) only %d accepted connection(s) are still open but %d %s goroutine(s) are alive: the teardown of an ended connection has not finished although no open connection is stalled; tasks: %s; held locks: %v", q.Stamp, float64(q.VT)/1e9, open, counts[role], role, simrt.FormatTasks(q.Tasks), q.Held)
+				return
+			}
+		}
+		if counts["handleConnection"] > pending {
+			r.viol("C16", "goroutines-exit", "C16/leftover-at-quiescence/handleConnection", "at the quiescence point with stamp %d %d handleConnection goroutine(s) are alive but only %d connection(s) are waiting to be accepted; tasks: %s", q.Stamp, counts["handleConnection"], pending, simrt.FormatTasks(q.Tasks))
+			return
+		}
+	}
 	if len(h.LeftAfterClients) > 0 && !h.Script.Knobs.CloseServer {
 		t := h.LeftAfterClients[0]
 		r.viol("C16", "goroutines-exit", "C16/leftover-after-clients-gone/"+siteOf(t.Name)+"/"+t.Wait, "every client connection has ended and the broker is quiescent, but %d library goroutine(s) remain: %s; held locks: %v", len(h.LeftAfterClients), simrt.FormatTasks(h.LeftAfterClients), h.HeldAtEnd)
@@ -735,11 +776,12 @@ func (r *run) wellBehaved(c *Conn) (bool, string) {
 func (r *run) checkInnocent(m *Model) {
 	h := m.H
 	for _, c := range h.Conns {
-		if !accepted(c) || !c.Dead || c.ClientEnded {
+		bc, bcStamp, bcVT := brokerClosed(c)
+		if !accepted(c) || !bc {
 			continue
 		}
 		// the broker ended this connection
-		if h.ServerCloseCall > 0 && c.DeadStamp > h.ServerCloseCall {
+		if h.ServerCloseCall > 0 && bcStamp > h.ServerCloseCall {
 			continue
 		}
 		if ok, _ := r.wellBehaved(c); !ok {
@@ -749,14 +791,23 @@ func (r *run) checkInnocent(m *Model) {
 			continue // the client asked for it
 		}
 		// keep-alive: silence of at least the negotiated keep-alive justifies it
+		if len(c.Up) == 0 || c.Up[0].P.Type != refmqtt.CONNECT {
+			continue
+		}
 		ka := int64(c.Up[0].P.KeepAlive)
 		if ka == 0 {
 			continue
 		}
-		if c.DeadVT-c.LastUpVT >= ka*1e9 {
+		lastUp := c.LastUpVT
+		for _, t := range c.UpVT {
+			if t <= bcVT {
+				lastUp = t
+			}
+		}
+		if bcVT-lastUp >= ka*1e9 {
 			continue
 		}
-		r.viol("C05", "innocent-connection-closed", "C05/innocent-connection-closed", "the broker closed connection %d (client %d, id %q) although everything it sent was valid and it was not silent for its keep-alive (%d s): last bytes sent at %.3fs, closed at %.3fs (%s); %d packets sent, %d received; other connection ends in this run: %s", c.Idx, c.Client, c.Up[0].P.ClientID, ka, float64(c.LastUpVT)/1e9, float64(c.DeadVT)/1e9, c.DeadKind, len(c.Up), len(c.Down), r.otherEnds(c))
+		r.viol("C05", "innocent-connection-closed", "C05/innocent-connection-closed", "the broker closed connection %d (client %d, id %q) although everything it sent was valid and it was not silent for its keep-alive (%d s): last bytes sent at %.3fs, closed at %.3fs; %d packets sent, %d received; other connection ends in this run: %s", c.Idx, c.Client, c.Up[0].P.ClientID, ka, float64(lastUp)/1e9, float64(bcVT)/1e9, len(c.Up), len(c.Down), r.otherEnds(c))
 	}
 }
 
@@ -1171,8 +1222,8 @@ func (m *Model) racedIDs() map[string]bool {
 		id := c.Up[0].P.ClientID
 		if p := last[id]; p != nil {
 			end := p.EndStamp
-			if !p.ClientEnded {
-				end = p.DeadStamp
+			if bc, st, _ := brokerClosed(p); bc {
+				end = st
 			}
 			quiet := false
 			for _, q := range m.H.AllQ {
@@ -1269,7 +1320,7 @@ func (r *run) checkConnect(m *Model) {
 				nonAck++
 			}
 		}
-		closedByBroker := c.Dead && !c.ClientEnded
+		closedByBroker, _, _ := brokerClosed(c)
 		// strictly well-formed CONNECT first?
 		wellFormed := false
 		if first != nil && first.Type == refmqtt.CONNECT {
@@ -1433,7 +1484,7 @@ func connectDefect(raw []byte) string {
 func (r *run) checkKeepAlive(m *Model) {
 	h := m.H
 	for _, c := range h.Conns {
-		if !accepted(c) || len(c.UpVT) == 0 {
+		if !accepted(c) || len(c.UpVT) == 0 || len(c.Up) == 0 || c.Up[0].P.Type != refmqtt.CONNECT {
 			continue
 		}
 		k := int64(c.Up[0].P.KeepAlive)
@@ -1446,8 +1497,8 @@ func (r *run) checkKeepAlive(m *Model) {
 		if c.ClientEnded {
 			end = c.EndVT
 		}
-		if c.Dead && (end < 0 || c.DeadVT < end) {
-			end = c.DeadVT
+		if bc, _, vt := brokerClosed(c); bc && (end < 0 || vt < end) {
+			end = vt
 		}
 		if h.ServerCloseCall > 0 && c.nc.Closed() && end < 0 {
 			continue
@@ -1466,6 +1517,60 @@ func (r *run) checkKeepAlive(m *Model) {
 				r.viol("C19", "silent-client-dropped", "C19/not-dropped", "connection %d (keep-alive %d s) sent nothing from %.3fs to %.3fs (%.1f s of silence) and the broker had not closed it by then", c.Idx, k, float64(t)/1e9, float64(next)/1e9, float64(next-t)/1e9)
 				break
 			}
+		}
+	}
+}
+
+// ---------------------------------------------------------------- C12 sender side (broker role): packet identifiers in flight
+
+// checkSenderIDs: on every connection the PUBLISH packets the broker has sent
+// and that are not yet acknowledged carry non-zero, pairwise distinct packet
+// identifiers.  An identifier counts as released as soon as the subscriber's
+// terminal acknowledgement (PUBACK, PUBCOMP) has its first byte on the wire --
+// the earliest moment at which the broker could know.
+func (r *run) checkSenderIDs(m *Model) {
+	defer func() { r.cur = nil }()
+	for _, c := range m.H.Conns {
+		r.cur = c
+		if !accepted(c) {
+			continue
+		}
+		type ev struct {
+			stamp int64
+			down  bool
+			w     *WirePkt
+		}
+		var evs []ev
+		for _, w := range c.Down {
+			if w.P.Type == refmqtt.PUBLISH && w.P.QoS > 0 {
+				evs = append(evs, ev{w.First, true, w})
+			}
+		}
+		for _, w := range c.Up {
+			if w.P.Type == refmqtt.PUBACK || w.P.Type == refmqtt.PUBCOMP {
+				evs = append(evs, ev{w.First, false, w})
+			}
+		}
+		sort.SliceStable(evs, func(i, j int) bool { return evs[i].stamp < evs[j].stamp })
+		inflight := map[uint16]*WirePkt{}
+		for _, e := range evs {
+			p := e.w.P
+			if !e.down {
+				if old := inflight[p.ID]; old != nil {
+					if (p.Type == refmqtt.PUBACK && old.P.QoS == 1) || (p.Type == refmqtt.PUBCOMP && old.P.QoS == 2) {
+						delete(inflight, p.ID)
+					}
+				}
+				continue
+			}
+			if p.Dup {
+				continue // a retransmission legitimately repeats the identifier
+			}
+			if old := inflight[p.ID]; old != nil {
+				r.viol("C12", "distinct-ids-in-flight", "C12/duplicate-id-in-flight", "connection %d: the broker sent %s (stamp %d) while its earlier %s (stamp %d) with the same packet identifier was still unacknowledged", c.Idx, p, e.w.First, old.P, old.First)
+				break
+			}
+			inflight[p.ID] = e.w
 		}
 	}
 }
